@@ -17,6 +17,8 @@ on an empty in-memory file).  Afterwards
                         the end or the first error, all warnings
 * `readmut <off> <x>`   the same on a copy with byte `off mod len` xor-ed with `x`
 * `readtrunc <n>`       the same on the first `n mod (len+1)` bytes
+* `mutall`               hash form: the `read` lines of every single-byte corruption (xor 0x01, 0x80,
+                        0xff at every offset) and every truncation of the file
 * `raw <data>`          the same on an arbitrary byte string
 * `sweep <ver> <pre> <lo> <hi>`   hash form: FNV-1a over the `read` lines of the files
                         `sweepFile ver pre x` for `lo ≤ x < hi` (all two-byte chunk header starts)
@@ -185,6 +187,18 @@ def step (s : Session) (toks : List String) : Session × String :=
             let f := w.file.take i ++ ((w.file.drop i).take 1).map (· ^^^ UInt8.ofNat x) ++ w.file.drop (i + 1)
             (s, readStr f)
         | _, _ => (s, "bad-args")
+      | "mutall", [] =>
+        -- every single-byte corruption (xor 0x01, 0x80, 0xff) and every truncation of the file, hash form
+        let f := w.file
+        let n := f.length
+        let h := (List.range n).foldl (fun h i =>
+          let pre := f.take i
+          let post := f.drop (i + 1)
+          let b := (f.drop i).head!
+          let h := [0x01, 0x80, 0xff].foldl (fun h (x : UInt8) =>
+            fnvByte (fnvString h (readStr (pre ++ (b ^^^ x) :: post))) 10) h
+          fnvByte (fnvString h (readStr pre)) 10) fnvOffset
+        (s, s!"h {h}")
       | "readtrunc", [n] =>
         match parseNat n with
         | some n => (s, readStr (w.file.take (n % (w.file.length + 1))))
